@@ -5,7 +5,11 @@
    the frame graph (model Graph/Cycle.v::active_edges_single_cycle with prim = true, property C06; the native
    node means Cycle.gsem_c06).  No rank / root variables are declared; everything else solve_slitherlink posts
    is unchanged (Slitherlink.v::slitherlink_constraints; the clue constraints only mention the frame variables,
-   whose ids do not move).  Same error points as Slitherlink.v::solve_slitherlink_model.
+   whose ids do not move).
+   Error points: as Slitherlink.v::solve_slitherlink_model, except for boards with BOTH dimensions negative: the
+   auxiliary-variable route raises ValueError there (int_array(0, 0, -1) inside the graph call) while the native
+   route runs through (CyclePrimCompose.frame_cycle_prim_z; the loops over the cells are empty).  Exactly one
+   negative dimension: ValueError from Array2D.__init__, as before.
    Theorem slitherlink_exact_prim: same statement as SlitherlinkProofs.slitherlink_exact, for the evaluator
    gsem_c06; the graph side is CyclePrimCompose.cycle_frame_prim_compose. *)
 From Coq Require Import ZArith List Bool Arith Lia.
@@ -18,9 +22,7 @@ Local Open Scope nat_scope.
 
 Definition solve_slitherlink_model_prim (pb : problem) : res state :=
   let h := dim pb 0 in let w := dim pb 1 in
-  if ((getz (sec pb 0) 0 <? 0) || (getz (sec pb 0) 1 <? 0))%Z then Err ValueError
-  else
-  match frame_cycle_prim h w with
+  match frame_cycle_prim_z (getz (sec pb 0) 0) (getz (sec pb 0) 1) with
   | Ok (st1, _) =>
       if Nat.ltb (length (sec pb 1)) (h * w) then Err IndexError
       else Ok (ensure st1 (slitherlink_constraints h w (sec pb 1)))
@@ -45,9 +47,7 @@ Proof.
   change (sec [[Z.of_nat h; Z.of_nat w]; clues] 0) with [Z.of_nat h; Z.of_nat w].
   change (getz [Z.of_nat h; Z.of_nat w] 0) with (Z.of_nat h).
   change (getz [Z.of_nat h; Z.of_nat w] 1) with (Z.of_nat w).
-  destruct (slither_dims h w [clues]) as [-> ->].
-  replace ((Z.of_nat h <? 0) || (Z.of_nat w <? 0))%Z with false
-    by (symmetry; apply orb_false_iff; split; apply Z.ltb_ge; lia).
+  destruct (slither_dims h w [clues]) as [-> ->]. rewrite frame_cycle_prim_z_nat.
   destruct (frame_cycle_prim h w) as [[st1 res]|e] eqn:Hcall; [|discriminate].
   destruct (Nat.ltb (length clues) (h * w)); [discriminate|].
   intros Hst. inversion Hst; subst st. clear Hst.
@@ -65,9 +65,7 @@ Proof.
   change (sec [[Z.of_nat h; Z.of_nat w]; clues] 0) with [Z.of_nat h; Z.of_nat w].
   change (getz [Z.of_nat h; Z.of_nat w] 0) with (Z.of_nat h).
   change (getz [Z.of_nat h; Z.of_nat w] 1) with (Z.of_nat w).
-  destruct (slither_dims h w [clues]) as [-> ->].
-  replace ((Z.of_nat h <? 0) || (Z.of_nat w <? 0))%Z with false
-    by (symmetry; apply orb_false_iff; split; apply Z.ltb_ge; lia).
+  destruct (slither_dims h w [clues]) as [-> ->]. rewrite frame_cycle_prim_z_nat.
   destruct (frame_cycle_prim_ok h w) as [st1 [Hc _]]. rewrite Hc.
   replace (Nat.ltb (length clues) (h * w)) with false by (symmetry; apply Nat.ltb_ge; exact Hl).
   eexists. reflexivity.
